@@ -292,27 +292,27 @@ theorem ctxGenFinish_ext (cid : CtxId) (x : Ctx) (fid : Nat) (next : Option Task
     | exact h0.trans (resumeWaiters_ext _ _ _)
     | exact h0.trans ((storeGenerated_ext _ _ _ _).trans (resumeWaiters_ext _ _ _))
 
-theorem runBodyOp_ext (cid : CtxId) (x : Ctx) (op : BodyOp) : Ext x (runBodyOp cid x op).1 := by
+theorem runBodyOp_ext (cid : CtxId) (cur : Option CtxId) (x : Ctx) (op : BodyOp) : Ext x (runBodyOp cid cur x op).1 := by
   cases op with
   | add types name v => exact ctxAdd_ext _ _ _
   | addFactory types name fid => exact ctxAddFactory_ext _ _ _
   | getNowait ty name opt => exact ctxGetNowait_ext _ _ _ _
   | current => exact Ext.refl _
 
-theorem runBody_ext (cid : CtxId) (x : Ctx) (ops : List BodyOp) : Ext x (runBody cid x ops).1 := by
+theorem runBody_ext (cid : CtxId) (cur : Option CtxId) (x : Ctx) (ops : List BodyOp) : Ext x (runBody cid cur x ops).1 := by
   induction ops generalizing x with
   | nil => exact Ext.refl _
   | cons op ops ih =>
     unfold runBody
-    exact (runBodyOp_ext cid x op).trans (ih _)
+    exact (runBodyOp_ext cid cur x op).trans (ih _)
 
-theorem runTeardown_ext (cid : CtxId) (be : BlockEnd) (st : List Cb) (x : Ctx) :
-    Ext x (runTeardown cid be st x).1 := by
-  fun_induction runTeardown cid be st x with
+theorem runTeardown_ext (cid : CtxId) (cur : Option CtxId) (be : BlockEnd) (st : List Cb) (x : Ctx) :
+    Ext x (runTeardown cid cur be st x).1 := by
+  fun_induction runTeardown cid cur be st x with
   | case1 x => exact Ext.refl _
   | case2 stack x id passExc isAsync body regs raises x' bodyOut hb stack' x'' tr excs ht ih =>
     have hb' : Ext x x' := by
-      have h := runBody_ext cid x body
+      have h := runBody_ext cid cur x body
       rw [hb] at h
       exact h
     simp only [stack', List.unattach_reverse, List.unattach_attach] at ht ih
@@ -456,7 +456,7 @@ theorem step_exit_WKeeps (w : World) (t : TaskId) (c : CtxId) (be : BlockEnd) :
       refine WKeeps.trans ?_ (WKeeps.setCur _ _ _)
       refine WKeeps.setCtx hx ?_
       have h1 : Keeps x { x with state := .closing, tds := [] } := Keeps.of_tables rfl rfl
-      have h2 := (runTeardown_ext c be (effStack be x.tds) { x with state := .closing, tds := [] }).keeps
+      have h2 := (runTeardown_ext c (w.curOf t) be (effStack be x.tds) { x with state := .closing, tds := [] }).keeps
       exact (h1.trans h2).trans (Keeps.of_tables rfl rfl)
 
 theorem step_inject_WKeeps (w : World) (t : TaskId) (isAsync : Bool) (deps : List Dep)
